@@ -69,6 +69,7 @@ struct Extractor {
       std::string N = RD->getNameAsString();
       if (N.empty()) if (auto *TD = RD->getTypedefNameForAnonDecl()) N = TD->getNameAsString();
       if (!N.empty()) return N;
+      if (!RD->isAnonymousStructOrUnion()) return "";   // an unnamed struct *type* of a named field
       RD = dyn_cast_or_null<RecordDecl>(RD->getParent());
     }
     return "";
